@@ -18,6 +18,7 @@ import (
 	"compress/gzip"
 	"net/http"
 	"strconv"
+	"strings"
 )
 
 // ResponseFilter determines if the response should be gzipped.
@@ -45,11 +46,13 @@ type SkipCompressedFilter struct{}
 // ShouldCompress returns true if served file is not already compressed
 // encodings via https://developer.mozilla.org/en-US/docs/Web/HTTP/Headers/Content-Encoding
 func (n SkipCompressedFilter) ShouldCompress(w http.ResponseWriter) bool {
-	switch w.Header().Get("Content-Encoding") {
-	case "gzip", "compress", "deflate", "br":
-		return false
-	default:
+	// any content coding other than identity (gzip, compress, deflate,
+	// br, zstd, ...) means the response is encoded already
+	switch strings.ToLower(strings.TrimSpace(w.Header().Get("Content-Encoding"))) {
+	case "", "identity":
 		return true
+	default:
+		return false
 	}
 }
 
